@@ -182,6 +182,16 @@ Outcome run_gen(const Plan & plan, const RunCtx & ctx)
   for (int i = 0; i < NS; i++) { slot[i].reset(new bxdecay0::event); slot_state[i] = "fresh"; }
   install_ga(plan);
   g_ga_mask = plan.hint("ga", 0);
+  // post-generation operations are caller-owned shared_ptr objects: in half of the runs the client keeps ONE
+  // object per preset and registers it in every generator (and again after reset), as an application would
+  const bool share_ops = plan.hint("share_ops", 0) != 0;
+  std::map<int, std::shared_ptr<bxdecay0::i_event_op>> op_pool;
+  auto user_op = [&](int preset) -> std::shared_ptr<bxdecay0::i_event_op> {
+    if (!share_ops || preset <= 0) return nullptr;
+    auto & p = op_pool[preset];
+    if (!p) p = make_mdl(preset);
+    return p;
+  };
   const bool check07 = ctx.prop == "C07";
   // the canonical history costs one extra initialise per (configuration, stream): computed where it
   // decides something (C07) or adds fresh-object generation paths under the sanitizers (C08 histories)
@@ -199,7 +209,7 @@ Outcome run_gen(const Plan & plan, const RunCtx & ctx)
       I.gen.reset(); // destroy the previous instance (if any), then a new one
       I.gen.reset(new bxdecay0::decay0_generator);
       I.cfg = cfg_of(op); I.has_cfg = false; I.inited = false; I.shots = 0; I.last = "new";
-      try { apply_cfg(*I.gen, I.cfg); I.has_cfg = true; }
+      try { apply_cfg(*I.gen, I.cfg, user_op(I.cfg.mdl)); I.has_cfg = true; }
       catch (std::exception & e) { tr.adds("cfg-throw"); out.ctr["cfg_rejected"]++; }
       tr.adds("cfg"); tr.adds(I.cfg.key());
     } else if (op.k == "recfg") {
@@ -212,7 +222,7 @@ Outcome run_gen(const Plan & plan, const RunCtx & ctx)
         // operations cannot be unregistered: the effective configuration keeps the one already there
         GenCfg c2 = I.cfg;
         if (registered != 0) { I.cfg.mdl = registered; c2.mdl = 0; }
-        apply_cfg(*I.gen, c2);
+        apply_cfg(*I.gen, c2, user_op(c2.mdl));
         // make the object's public configuration exactly the one the canonical instance gets
         if (I.cfg.cat == 2 || (I.cfg.emin_keV < 0 && I.cfg.emax_keV < 0)) I.gen->set_decay_dbd_esum_range(NAN, NAN);
         if (I.cfg.cat == 2) { I.gen->set_decay_dbd_level(bxdecay0::decay0_generator::DBD_LEVEL_INVALID); I.gen->set_decay_dbd_mode(bxdecay0::DBDMODE_UNDEF); }
@@ -258,7 +268,7 @@ Outcome run_gen(const Plan & plan, const RunCtx & ctx)
       I.gen->reset();
       I.inited = false;
       try {
-        apply_cfg(*I.gen, I.cfg);
+        apply_cfg(*I.gen, I.cfg, user_op(I.cfg.mdl));
         SimRandom r(init_key(op.arg(1)));
         r.begin_op(INIT_BUDGET);
         I.gen->initialize(r);
@@ -431,7 +441,7 @@ GenCfg pick_cfg(Rng & r, bool cheap_only)
     c.cat = 1; c.nuc = e->nuc; c.level = e->level; c.mode = e->mode;
     if (mode_supports_window(e->mode) && r.chance(0.3)) pick_window(r, *e, c);
   }
-  if (r.chance(0.12)) c.mdl = (int)r.range(1, mdl_presets());
+  if (r.chance(0.18)) c.mdl = (int)r.range(1, mdl_presets());
   return c;
 }
 
@@ -486,6 +496,7 @@ Plan gen_hist(u64 seed, u64 idx, const RunCtx & ctx)
   Rng r(hmix(hmix(seed, hstr("gen-hist")), idx));
   bool faults = (idx % 3) != 0;
   p.hdr["faults"] = faults ? "1" : "0";
+  p.hdr["share_ops"] = r.chance(0.5) ? "1" : "0";
   p.hdr["ga"] = std::to_string((i64)(r.next() & 0x3ffff) | (r.chance(0.7) ? 0xffff : 0)); // which (nuclide, process) datasets exist on the simulated disk
   bool cheap = ctx.tier != "thorough" || r.chance(0.8);
   int ng = (int)r.range(1, 3);
